@@ -83,6 +83,7 @@ const END_: Exp = Exp::Lint(&["ElementNotDefined"]);
 const SND: Exp = Exp::Lint(&["SubprogramNotDefined"]);
 const VREQ: Exp = Exp::Lint(&["VariableRequired"]);
 const ICON: Exp = Exp::Lint(&["InvalidConstant"]);
+const NWF: Exp = Exp::Lint(&["NextWithoutFor"]);
 const P: Exp = Exp::Parse;
 
 const DIM_ZA: &[&str] = &["DIM ZA%(5)"];
@@ -262,6 +263,10 @@ pub const CATALOGUE: &[Fault] = &[
     f("declare-mismatch:fn-count", "DECLARE FUNCTION ZFn% (ZPA%, ZPB%, ZPC%)", DECL_FN, TM, NB | MO | H),
     f("declare-mismatch:fn-param-type", "DECLARE FUNCTION ZFn% (ZPA%, ZPB$)", DECL_FN, TM, NB | MO | H),
     f("declare-mismatch:fn-return", "DECLARE FUNCTION ZFn& (ZPA%, ZPB%)", DECL_FN, TM, NB | MO | H),
+    // ---- NEXT naming something else than the counter of its FOR
+    f("next-mismatch:other-variable", "NEXT ZK7%", &["FOR ZK6% = 1 TO 2", "  ZK5% = 0"], NWF, NB),
+    f("next-mismatch:array-element", "NEXT ZA%(1)", &["DIM ZA%(5)", "FOR ZK6% = 1 TO 2", "  ZK5% = 0"], NWF, NB),
+    f("next-mismatch:record-field", "NEXT ZR.ZA", &["DIM ZR AS ZT", "FOR ZK6% = 1 TO 2", "  ZK5% = 0"], NWF, NB | T),
     // ---- syntax: string literal without closing quote
     f("syntax-string:print", "PRINT \"abc", &[], P, S | TAIL),
     f("syntax-string:assign", "ZQ$ = \"abc", &[], P, S | TAIL),
@@ -1039,6 +1044,8 @@ fn construct(f: &Fault, form: Ctx, indent: &str, variant: u32) -> Seg {
     // labels start in column 1
     let own_indent = if f.fl & LS != 0 { String::new() } else { ind.clone() };
     match form {
+        // (now and then with characters above 127 to the left of the fault: a column counts characters)
+        Ctx::AfterColon if variant % 3 == 1 => seg.push(fault_line(format!("{}ZK5$ = \"\u{e4}\u{f6}\u{fc} \u{e9}\": ", ind), "")),
         Ctx::AfterColon => seg.push(fault_line(format!("{}ZK5% = 5: ", ind), "")),
         Ctx::BeforeColon => seg.push(fault_line(ind.clone(), ": ZK5% = 5")),
         // a syntax error in a branch may be found where the branch begins (right after THEN / ELSE): the statement is the IF line
